@@ -2,6 +2,7 @@ from __future__ import division, print_function
 import numpy as np
 from bct.utils import BCTParamError, binarize, get_rng
 from bct.utils import pick_four_unique_nodes_quickly
+from bct.utils import _verif
 from .clustering import number_of_components
 from ..citations import MASLOV2002, SPORNS2004, RUBINOV2011
 from ..due import BibTeX, due
@@ -123,6 +124,7 @@ def latmio_dir_connected(R, itr, D=None, seed=None):
                         j.setflags(write=True)
                         j[e1] = d
                         j[e2] = b  # reassign edge indices
+                        if _verif.ON: _verif.emit('swap', fn='latmio_dir_connected', R=R, i=i, j=j, e1=e1, e2=e2, abcd=(a, b, c, d))
                         eff += 1
                         break
             att += 1
@@ -221,6 +223,7 @@ def latmio_dir(R, itr, D=None, seed=None):
                     j.setflags(write=True)
                     j[e1] = d
                     j[e2] = b  # reassign edge indices
+                    if _verif.ON: _verif.emit('swap', fn='latmio_dir', R=R, i=i, j=j, e1=e1, e2=e2, abcd=(a, b, c, d))
                     eff += 1
                     break
             att += 1
@@ -361,6 +364,7 @@ def latmio_und_connected(R, itr, D=None, seed=None):
                         j.setflags(write=True)
                         j[e1] = d
                         j[e2] = b
+                        if _verif.ON: _verif.emit('swap', fn='latmio_und_connected', R=R, i=i, j=j, e1=e1, e2=e2, abcd=(a, b, c, d))
                         eff += 1
                         break
             att += 1
@@ -469,6 +473,7 @@ def latmio_und(R, itr, D=None, seed=None):
                     j.setflags(write=True)
                     j[e1] = d
                     j[e2] = b
+                    if _verif.ON: _verif.emit('swap', fn='latmio_und', R=R, i=i, j=j, e1=e1, e2=e2, abcd=(a, b, c, d))
                     eff += 1
                     break
             att += 1
@@ -1208,6 +1213,7 @@ def randmio_dir_connected(R, itr, seed=None):
                     j.setflags(write=True)
                     j[e1] = d  # reassign edge indices
                     j[e2] = b
+                    if _verif.ON: _verif.emit('swap', fn='randmio_dir_connected', R=R, i=i, j=j, e1=e1, e2=e2, abcd=(a, b, c, d))
                     eff += 1
                     break
             att += 1
@@ -1276,6 +1282,7 @@ def randmio_dir(R, itr, seed=None):
                 j.setflags(write=True)
                 j[e1] = d
                 j[e2] = b  # reassign edge indices
+                if _verif.ON: _verif.emit('swap', fn='randmio_dir', R=R, i=i, j=j, e1=e1, e2=e2, abcd=(a, b, c, d))
                 eff += 1
                 break
             att += 1
@@ -1395,6 +1402,7 @@ def randmio_und_connected(R, itr, seed=None):
                     j.setflags(write=True)
                     j[e1] = d
                     j[e2] = b  # reassign edge indices
+                    if _verif.ON: _verif.emit('swap', fn='randmio_und_connected', R=R, i=i, j=j, e1=e1, e2=e2, abcd=(a, b, c, d))
                     eff += 1
                     break
             att += 1
@@ -1470,6 +1478,7 @@ def randmio_dir_signed(R, itr, seed=None):
                 R[c, b] = r0_cd
                 R[c, d] = r0_cb
 
+                if _verif.ON: _verif.emit('swap', fn='randmio_dir_signed', R=R, abcd=(a, b, c, d))
                 eff += 1
                 break
 
@@ -1555,6 +1564,7 @@ def randmio_und(R, itr, seed=None):
                 j.setflags(write=True)
                 j[e1] = d
                 j[e2] = b  # reassign edge indices
+                if _verif.ON: _verif.emit('swap', fn='randmio_und', R=R, i=i, j=j, e1=e1, e2=e2, abcd=(a, b, c, d))
                 eff += 1
                 break
             att += 1
@@ -1618,6 +1628,7 @@ def randmio_und_signed(R, itr, seed=None):
                 R[c, b] = R[b, c] = r0_cd
                 R[c, d] = R[d, c] = r0_cb
 
+                if _verif.ON: _verif.emit('swap', fn='randmio_und_signed', R=R, abcd=(a, b, c, d))
                 eff += 1
                 break
 
@@ -1698,6 +1709,7 @@ def randomize_graph_partial_und(A, B, maxswap, seed=None):
 
             j[e1] = d
             j[e2] = b  # reassign edge indices
+            if _verif.ON: _verif.emit('swap', fn='randomize_graph_partial_und', R=A, i=i, j=j, e1=e1, e2=e2, abcd=(a, b, c, d))
             nswap += 1
     return A
 
@@ -1816,6 +1828,7 @@ def randomizer_bin_und(R, alpha, seed=None):
                     j.setflags(write=True)
                     j[it] = c
                     i[m] = b
+            if _verif.ON: _verif.emit('swap', fn='randomizer_bin_und', R=R, i=i, j=j, e1=it, e2=-1, abcd=(a, b, c, d))
 
     # restore fullnodes
     if np.size(fullnodes):
